@@ -142,7 +142,7 @@ def case(cfg, trims):
     for j in range(len(xflat)):
         ref_lw[xflat[j].tobytes()] = float(lwn[j])
     pool_n = len(xflat)
-    have_blobs = c["mode"] in ("blobs", "blobs2", "blobs3", "blobview")
+    have_blobs = c["mode"] in ("blobs", "blobs2", "blobs3", "blobview", "blobsI", "blobsS")
     for (rs, rb, tr, rl) in itertools.product([False, True], repeat=4):
         for (et, bt) in (trims if tr else trims[:1]):
             where = f"posterior(resample={rs}, return_blobs={rb}, trim_importance_weights={tr}, return_logw={rl}, ess_trim={et}, bins_trim={bt})"
